@@ -622,6 +622,19 @@ class RouterAnalysis:
                     self.add('SH.2', None, 'SubjectRouter::shrink(key) reaches the root node on every path', fw[0].shortloc(),
                              f'shrink(key) returns without visiting the tree when `{conds[0].text()[:60] if conds else "?"}`: whether nothing could have been removed in that case is not followed (the traversal also prunes dead prefixes of a longer pattern)')
             elif not fw: self.add('SH.2', None, 'SubjectRouter::shrink(key) reaches the root node', top.shortloc(), 'no call of Node::shrink found in the public shrink()')
+        # SH.3: no user code inside the traversal.  A callable the user supplied (a listener option) that is invoked while shrink walks the tree or
+        # decides what to erase can re-enter the router: a subscribe() for the reported key lands on a node the erase is about to remove
+        try: sh_end = int((sh.d.get('endloc') or '').split(':')[1])
+        except Exception: sh_end = sh.line
+        inner_fns = [g for g in F.fns if g is sh or (g.d.get('lambda') and g.file == sh.file and sh.line <= g.line <= sh_end) or (not g.d.get('lambda') and g.gname != sh.gname and only_from_shrink(g.gname))]
+        ucalls = [(g, n) for g in inner_fns for n in g.nodes() if n.k == 'call' and 'std::function<' in (n.calleeq or '') and 'operator()' in (n.calleeq or '')]
+        if ucalls:
+            g, n = ucalls[0]
+            self.add('SH.3', False, 'Node::shrink: no user-supplied callable runs inside the traversal', n.shortloc(),
+                     f'`{n.text()[:50]}` calls user code in the middle of the walk (in {g.name.split("::")[-1][:30]}): the callable can use the router — a subscription made for the key it is told about lands on the node '
+                     'that has just been found empty and is erased with it, so a key with a live subscription is removed', key='SH.3|user-code')
+        else:
+            self.add('SH.3', True, 'Node::shrink: no user-supplied callable runs inside the traversal', sh.shortloc(), key='SH.3|user-code')
         # SH.1: erasures from m_children
         ERASE = ('erase', 'clear', 'extract', 'erase_if', 'swap', 'operator=', 'pop_back', 'pop_front')
         erasers = []
@@ -679,6 +692,28 @@ class RouterAnalysis:
                 unk = any(not isinstance(v, bool) for v in vals)
                 self.add('SH.2', None if (unk and vals != {want}) else vals == {want}, f'isEmpty() row (subject={hs}, subscriptions={sub}, no children={ce}) = {sorted(map(str, vals))}', ie.shortloc(),
                          '' if vals == {want} else f'expected {want}: ' + ('a node with a live subscription or with children counts as empty and is erased by shrink' if not want else 'a dead node is never pruned'), key='SH.2|table')
+            # state a node carries besides its name, subject and children: what delivery looks at must keep the node alive (or be covered by isEmpty())
+            ncls = F.cls(NODE) or {'fields': []}
+            for fld_ in ncls['fields']:
+                nm_ = fld_['name']
+                if nm_ in KNOWN_NODE_FIELDS: continue
+                def reads_(fn_): return any(x.k == 'member' and x.field and x.name == nm_ and (x.d.get('class') or '') == NODE for x in fn_.nodes())
+                deliv = [g for g in F.fns if g.gname == f'{NODE}::notify' and reads_(g)]
+                in_ie = reads_(ie)
+                def writes_(fn_):
+                    for x in fn_.nodes():
+                        if x.k == 'binop' and x.op.endswith('=') and x.op not in ('==', '!=', '<=', '>=') and x.n('lhs') is not None and x.n('lhs').k == 'member' and x.n('lhs').name == nm_: return True
+                        if x.k == 'unop' and x.op in ('++', '--') and x.n('sub') is not None and x.n('sub').k == 'member' and x.n('sub').name == nm_: return True
+                    return False
+                setters = [g for g in F.fns if (g.d.get('classfull') or g.d.get('class') or '') == NODE and not g.d.get('lambda') and not g.d.get('ctor') and writes_(g)
+                           and g.gname.split('::')[-1] not in ('subscribe', 'lookupNode', 'shrink', 'notify')]
+                if deliv and not setters: continue          # kept up to date by the operations that change the tree: a derived value (judged where it is used)
+                if deliv and not in_ie:
+                    self.add('SH.2', False, f'isEmpty() takes `{nm_}` into account', ie.shortloc(),
+                             f'Node::notify consults `{nm_}` ({deliv[0].shortloc()}), a member isEmpty() does not look at: shrink erases a node whose `{nm_}` is set as soon as it has no subscription and no children, '
+                             f'and a node created later under the same key starts with the default — shrink changes which observers a later notify reaches', key=f'SH.2|extra|{nm_}')
+                elif deliv and in_ie:
+                    self.add('SH.2', None, f'isEmpty() takes `{nm_}` into account', ie.shortloc(), f'`{nm_}` is read by delivery and by isEmpty(): outside the isEmpty() table')
         # SH.3 shrink skeleton
         if not self_recursive(sh) and not any(strip_targs(n.calleeq or '') == f'{NODE}::shrink' for g in F.fns if only_from_shrink(g.gname) for n in g.nodes() if n.k == 'call'):
             self.add('SH.3', None, 'shrink traversal', sh.shortloc(), 'Node::shrink does not descend by calling itself: the per-level table is not applicable')
